@@ -70,6 +70,14 @@ pub mod parser {
             if padding == 0 {
                 return Err(RtcpParseError::InvalidPadding);
             }
+
+            // the padding can not extend over the fixed part of the packet
+            if padding as usize > packet.len() - P::MIN_PACKET_LEN {
+                return Err(RtcpParseError::Truncated {
+                    expected: P::MIN_PACKET_LEN + padding as usize,
+                    actual: packet.len(),
+                });
+            }
         }
 
         Ok(())
